@@ -9,11 +9,14 @@ from .. import canon, gen
 from ..core import call_real, frac
 
 ID = "C13"
-LEAN_MODULE = "CKT.Props.C13Collect"
+LEAN_MODULE = "CKT.Props.C13Sem"
 THEOREMS = ["CKT.C13." + t for t in ["split_total", "mapM_total", "step_total", "run_total", "key0_bit", "key1_bit", "key0_other", "key1_other",
                                       "reset_keys", "conditioned_refused", "classical_arg_refused",
                                       # the returned dictionary (Props/C13Collect)
-                                      "dedupKeys_spec", "sortKeys_spec", "collect_keys", "sum_by_key", "collect_sum", "simulate_total"]]
+                                      "dedupKeys_spec", "sortKeys_spec", "collect_keys", "sum_by_key", "collect_sum", "simulate_total"]] + \
+           ["CKT.C13Sem." + t for t in [  # T13.1: the branch table refines the Pauli-expectation semantics step by step; T13.2: reported values = semantic probabilities
+               "cl_key0", "cl_key1", "measure_branch", "reset_branch", "gate_branch", "split_measure", "split_reset", "mapM_gate",
+               "step_refines", "run_refines", "collect_value", "sampler_correct", "simulate_correct"]]
 RULE = ("random Clifford circuits (plus exact rational rotations, incl. near-deterministic small angles) with measurements and resets in any order on 1-5 qubits and 0-5 classical bits, up to 20 instructions, bits unused, "
         "written once or overwritten (incl. re-measuring a bit that already holds 1), barriers, conditioned operations and gates carrying classical "
         "bits (refused); non-Clifford rotations (incl. near-deterministic small angles) only in the failing-input search against the independent "
@@ -21,7 +24,7 @@ RULE = ("random Clifford circuits (plus exact rational rotations, incl. near-det
         "Qiskit's standard library on 1-4 qubits and user-defined gates under arbitrary names (independent simulator only for the names outside "
         "the model's table), a classical bit overwritten by a second qubit followed by a reset and re-use of either qubit")
 ASSUMPTIONS = ["Qiskit Statevector.evolve / probabilities and IEEE rounding are outside the model; the implementation's 1e-16 pruning tolerance is modelled as 0",
-               "the concrete Clifford backend of the model (exact Gaussian-rational amplitudes) is validated against the implementation, not proved Lawful",
+               "the concrete Clifford backend of the model (exact Gaussian-rational amplitudes) is validated against the implementation, not proved Lawful / ExSem (the refinement theorem holds for every backend whose states have expectation vectors transformed by transfer matrices)",
                "through ExactSampler: QuasiDistribution keeps integer keys"]
 LEVEL_TEXT = ("11 Lean 4 theorems about the branch-table model, generic in a lawful quantum backend (probabilities always add up to one, measurement "
               "sets/clears exactly the written bit, resets leave outcomes alone, refusals); floats abstracted (partial)")
